@@ -578,7 +578,7 @@ def explore_container_run(ix, cls, thorough=False, mutate=None):
     st = w.new_state()
     mons.init(st)
     cfg = w.make_config(st)
-    st.obj(cfg).field_domains["name"] = (None, "pattern")
+    st.obj(cfg).field_domains["name"] = (None, "pattern") if thorough else (None,)
     runner = w.make_runner(st, cfg)
 
     def tag_factory(interp, s):
